@@ -693,6 +693,13 @@ func (w *World) lightUpdate(n *Node, b *Block, nb *nodeBlk) {
 	ud := nb.ud
 	chIn := n.ch
 	bt := n.upSlice(b.Proof.Targets, b.Pre.N)
+	if SubRng(b.Seed^uint64(n.idx+1)*0x50f7, "sorted-targets").Pct(35) {
+		// the block's targets in ascending order (the call takes no hashes beside
+		// them, so any order is the same request)
+		bt = padU(append([]uint64(nil), bt...))
+		sortU(bt)
+		w.stats.Reach["light_update_sorted_block_targets"]++
+	}
 	g := w.fp.begin("Proof.Update", chIn, b.Adds, bt, nb.rem, ud.ToDestroy, ud.NewDelHash, ud.NewDelPos, ud.NewAddHash, ud.NewAddPos, n.cp.Targets, n.cp.Proof)
 	var out []H
 	err, _ := guard(func() error {
